@@ -42,6 +42,7 @@ type Contract struct {
 	Ens     []*Clause
 	Mods    []*ModItem
 	Inv     map[int][]*Clause
+	Variants map[int][]*Clause // loop variants ("decreases <loop>: expr"): non-negative at the head, strictly smaller on every back edge
 	Asserts map[string][]*Clause // keyed "call <callee>#k" -> clauses asserted before that call
 	FlagResult bool // the (single) result is a flag channel: never sent on, a receive completes only when it is closed
 	SiteSets map[string][]*GhostEffect // ghost assignments performed just before a call site ("set at call f#k: g := expr")
@@ -160,7 +161,7 @@ func (cs *ContractSet) parseContractFile(file, pkgPath string) error {
 		items = append(items, item{t, i + 1})
 	}
 	// join continuation lines: a line whose first token is not a keyword continues the previous one
-	keywords := map[string]bool{"func": true, "props": true, "requires": true, "ensures": true, "ensures-trusted": true, "modifies": true, "invariant": true,
+	keywords := map[string]bool{"func": true, "props": true, "requires": true, "ensures": true, "ensures-trusted": true, "modifies": true, "invariant": true, "decreases": true,
 		"trusted": true, "arith": true, "inline": true, "pred": true, "ghost": true, "owner": true, "flagchan": true, "assert": true,
 		"allocates": true, "freezes": true, "invokes": true, "preserves": true, "maintains": true, "sort": true, "effect": true, "set": true, "flagresult": true, "monitor": true, "locks": true, "inmonitor": true, "pure": true, "blocking": true, "note": true, "lemma": true, "params": true, "spec": true, "axiom": true}
 	var joined []item
@@ -259,7 +260,7 @@ func (cs *ContractSet) parseContractFile(file, pkgPath string) error {
 			case "assert":
 				cur.Asserts[site] = append(cur.Asserts[site], cl)
 			}
-		case "invariant":
+		case "invariant", "decreases":
 			if cur == nil {
 				return perr(fmt.Errorf("invariant outside func"))
 			}
@@ -287,6 +288,16 @@ func (cs *ContractSet) parseContractFile(file, pkgPath string) error {
 			if lf := strings.Fields(label); len(lf) > 1 {
 				label = lf[0]
 				iprops = lf[1:]
+			}
+			if kw == "decreases" {
+				if cur.Variants == nil {
+					cur.Variants = map[int][]*Clause{}
+				}
+				if label == "" {
+					label = "terminates"
+				}
+				cur.Variants[n] = append(cur.Variants[n], &Clause{Text: text, Expr: e, Label: label, Props: iprops, File: file, Line: it.line})
+				break
 			}
 			cur.Inv[n] = append(cur.Inv[n], &Clause{Text: text, Expr: e, Label: label, Props: iprops, File: file, Line: it.line})
 		case "modifies":
